@@ -1068,7 +1068,9 @@ impl Walrus {
                 }
 
                 // Add to results
-                if !final_data.is_empty() {
+                // Stateful reads must return zero-length entries too (read_next does); only a
+                // stateless read that trimmed the whole first entry away has nothing to return.
+                if !final_data.is_empty() || start_offset.is_none() {
                     // Extract topic_id and chunk_idx from the payload prefix for logging
                     if final_data.len() >= 9 {
                         let t_idx = final_data[0];
